@@ -969,6 +969,44 @@ pub fn record_display(a: &Args) -> usize {
             out.emit(json!({"e": "show", "what": "message", "m": j::msg(&m), "text": text(format!("{}", m))}));
         }
     }
+    // error texts of the frame codec: the offending (ASCII) input trimmed, the counts in decimal, the checksums in hex
+    let mut inputs: Vec<Vec<u8>> = vec![
+        b"garbage".to_vec(), b"".to_vec(), b"  :01 \t".to_vec(), b"\r\n".to_vec(), b":0100030407F9\r\n".to_vec(), b":0100030407F9".to_vec(),
+        b":020003040708\r\n".to_vec(), b":0000030400".to_vec(), b"\n:01000502FFF9\r\n\r\n".to_vec(), b" x ".to_vec(), b":00000001F0\r\n".to_vec(),
+        b":0A0003040102F0\r\n".to_vec(), b":FF00030407F9".to_vec(), b":0100030407\x0b".to_vec(),
+    ];
+    for _ in 0..40 {
+        let len = rand_len(&mut rng).min(30);
+        let mut enc = seed_encoding(rng.r#gen(), rng.r#gen(), &rand_bytes(&mut rng, len), rng.gen_bool(0.5));
+        match rng.gen_range(0..3) {
+            0 => { let k = enc.len() - 3 - if enc.ends_with(b"\r\n") { 2 } else { 0 }; enc[k.max(1)] = if enc[k.max(1)] == b'0' { b'1' } else { b'0' }; }
+            1 => { enc[2] = if enc[2] == b'0' { b'1' } else { b'0' }; }
+            _ => { let k = rng.gen_range(0..enc.len()); enc[k] = b"gZ -"[rng.gen_range(0..4)]; }
+        }
+        inputs.push(enc);
+    }
+    for inp in inputs {
+        let ev = match catch(|| Frame::from_bytes(&inp)) {
+            Ok(Err(e)) => {
+                let (kind, ex, ac) = match &e {
+                    flipdot_core::FrameError::InvalidFrame { .. } => ("invalid", 0usize, 0usize),
+                    flipdot_core::FrameError::FrameDataMismatch { expected, actual, .. } => ("mismatch", *expected, *actual),
+                    flipdot_core::FrameError::BadChecksum { expected, actual, .. } => ("checksum", *expected as usize, *actual as usize),
+                    _ => ("other", 0, 0),
+                };
+                json!({"e": "show", "what": "frameerr", "kind": kind, "input": j::bytes(&inp), "expected": ex, "actual": ac, "text": text(format!("{}", e))})
+            }
+            _ => continue,
+        };
+        out.emit(ev);
+    }
+    for len in [256usize, 257, 1000, 65536] {
+        if let Ok(Err(e)) = catch(|| Data::try_new(vec![0u8; len])) {
+            if let flipdot_core::FrameError::DataTooLong { max, actual } = &e {
+                out.emit(json!({"e": "show", "what": "frameerr", "kind": "toolong", "input": [], "expected": *max, "actual": *actual, "text": text(format!("{}", e))}));
+            }
+        }
+    }
     for (w, h) in [(0u32, 0u32), (1, 1), (3, 2), (5, 7), (8, 8), (7, 9), (30, 7), (23, 10), (12, 17)] {
         let mut p = Page::new(PageId(1), w, h);
         for _ in 0..(w * h / 3) {
